@@ -82,6 +82,25 @@ def mk_ops(rng, B, rem_bits, leafs, which=None):
             sl = bridge.to_lib(rc.RC(gen.rand_bits(rng, extra) + cb)).begin_parse()
             sl.skip_bits(extra)
             add('store_slice(partly consumed)', lambda b, sl=sl: b.store_slice(sl), cb)
+    # byte-granular and fixed-size stores that do not fit by MORE than one bit, at whatever (unaligned) fill level the builder has:
+    # the smallest number of whole bytes that is too many, a 267-bit address into less room, a 9-bit-header external address
+    nb = rem_bits // 8 + 1
+    if nb <= 130:
+        by = rng.randbytes(nb)
+        # (these carry their real encoding: whether they fit is decided against the builder's actual fill level, here and in the random histories)
+        add('store_bytes(whole bytes, too many)', lambda b, by=by: b.store_bytes(by), rc.bytes_to_bits(by))
+        add('store_bytes(bytearray, too many)', lambda b, by=by: b.store_bytes(bytearray(by)), rc.bytes_to_bits(by))
+        if nb <= 127:
+            st_ = 'z' * nb
+            add('store_string(whole bytes, too many)', lambda b, st_=st_: b.store_string(st_), rc.bytes_to_bits(st_.encode()))
+    if rem_bits < 267:
+        a_ = M.Addr(value=('std', 0, rng.randbytes(32), None), how=0)
+        add('store_address(std, no room)', lambda b, a_=a_: a_.store(b), a_.bits())
+    if rem_bits < 11 + 64:
+        a_ = M.Addr(value=('ext', rng.getrandbits(64), 64), how=0)
+        add('store_address(ext, no room)', lambda b, a_=a_: a_.store(b), a_.bits())
+    if rem_bits < 124:
+        add('store_coins(no room)', lambda b: b.store_coins((1 << 119) + 1), M.var_uint_bits((1 << 119) + 1, 4))
     # value-range breaks (independent of capacity: use small widths that fit when possible)
     for w in (1, 2, 8, 31, 32, 64, 255, 256):
         if w + 1 <= rem_bits:
